@@ -81,7 +81,7 @@ Proof. exact no_panic. Qed.
 Print Assumptions C12_no_panic.
 
 Theorem C12_no_panic_bus : forall b h, Forall VInv0 b -> bus_run b h <> None.
-Proof. intros b h. exact (no_panic_bus h b). Qed.
+Proof. exact no_panic_bus_bh. Qed.
 Print Assumptions C12_no_panic_bus.
 
 Theorem C12_no_panic_bus_init : forall (l : list (N * flip_style)) h,
